@@ -209,6 +209,7 @@ fn collect_msgs<'a>(ops: &'a [Op], out: &mut BTreeMap<u64, &'a Msg>) {
             }
             Op::Cancel { op, .. } => collect_msgs(std::slice::from_ref(op), out),
             Op::Fork { ops, .. } => collect_msgs(ops, out),
+            Op::Join(ops) => collect_msgs(ops, out),
             _ => {}
         }
     }
@@ -220,6 +221,7 @@ pub fn ops_contain(ops: &[Op], pred: &dyn Fn(&Op) -> bool) -> bool {
             || match o {
                 Op::Cancel { op, .. } => ops_contain(std::slice::from_ref(op), pred),
                 Op::Fork { ops, .. } => ops_contain(ops, pred),
+                Op::Join(ops) => ops_contain(ops, pred),
                 _ => false,
             }
     })
@@ -447,6 +449,11 @@ impl<'a> History<'a> {
                             return Some(x);
                         }
                     }
+                    Op::Join(ops) => {
+                        if let Some(x) = find_fork(ops, id) {
+                            return Some(x);
+                        }
+                    }
                     _ => {}
                 }
             }
@@ -481,6 +488,14 @@ impl<'a> History<'a> {
                 found
             }
         };
+        if k >= 1000 {
+            // sub-operation of a Join step
+            let (outer, inner) = ((k / 1000 - 1) as usize, (k % 1000) as usize);
+            return match script.and_then(|s| s.get(outer)).map(unwrap_cancel) {
+                Some(Op::Join(subs)) => subs.get(inner).map(unwrap_cancel),
+                _ => None,
+            };
+        }
         script.and_then(|s| s.get(k as usize)).map(unwrap_cancel)
     }
 
